@@ -69,23 +69,23 @@ package header
 //@   ensures result <= storeHeightBound && storeLow >= old(storeLow) && storeLow >= result
 
 //@ iface Store.Tail(s, ctx)
-//@   ensures result1 == nil ==> !result0.IsZero() && result0.Height() == storeTailH && 1 <= storeTailH
+//@   ensures result1 == nil ==> !result0.IsZero() && result0.Height() == storeTailH && 1 <= storeTailH && verified(result0)
 //@   ensures result1 != nil ==> result0.IsZero()
 
 //@ iface Store.GetByHeight(s, ctx, height)
 //@   requires [C16] no-wait: height <= storeLow
-//@   ensures result1 == nil ==> !result0.IsZero() && result0.Height() == height && result0 == chainAt(height)
+//@   ensures result1 == nil ==> !result0.IsZero() && result0.Height() == height && result0 == chainAt(height) && verified(result0)
 
 //@ iface Store.Get(s, ctx, hash)
 //@   requires [C10] deadline: ctxBounded(ctx)
-//@   ensures result1 == nil ==> !result0.IsZero() && result0.Hash() == hash
+//@   ensures result1 == nil ==> !result0.IsZero() && result0.Hash() == hash && verified(result0)
 
 //@ iface Getter.GetByHeight(g, ctx, height)
-//@   ensures result1 == nil ==> !result0.IsZero() && result0.Height() == height
+//@   ensures result1 == nil ==> !result0.IsZero() && result0.Height() == height && verified(result0) -- headers fetched from the trusted getter count as verified (C03 statement)
 //@   ensures result1 != nil ==> asVerr(result1) == nil
 
 //@ iface Getter.Get(g, ctx, hash)
-//@   ensures result1 == nil ==> !result0.IsZero() && result0.Hash() == hash
+//@   ensures result1 == nil ==> !result0.IsZero() && result0.Hash() == hash && verified(result0)
 
 //@ iface Store.DeleteRange(s, ctx, from, to)
 //@   requires [C16] tail-side: from < to && from == storeTailH && to <= storeLow + 1
@@ -138,3 +138,17 @@ package header
 
 //@ func New()
 //@   inline
+
+// ---- Head interface as a network oracle (C19): every call is counted, the trusted head it was given is recorded
+//@ ghost var headCalls int -- number of Head requests issued to the underlying header.Head
+//@ ghost var lastTrusted H -- TrustedHead option of the most recent Head request (zero header if none)
+
+//@ func WithTrustedHead(verified)
+//@   inline
+
+//@ iface Head.Head(h, ctx, opts)
+//@   effect headCalls := old(headCalls) + 1
+//@   effect lastTrusted := trustedHeadOf(opts)
+//@   ensures result1 == nil ==> !result0.IsZero() && validated(result0)
+//@   ensures result1 == nil && !trustedHeadOf(opts).IsZero() ==> passedVerify(trustedHeadOf(opts), result0)
+//@   ensures result1 != nil && !result0.IsZero() ==> asVerr(result1) != nil && asVerr(result1).SoftFailure
